@@ -6,6 +6,7 @@
 //!   {"id":.., "mode":"macro",  "shape":"<name>", "behs":[..]}   (fresh process per case) real tracing macros on a Registry
 //!   {"id":.., "mode":"conc",   "root":.., "shape":"<name>", "behs":[..], "ops":[..], "bound_ms":N}   thread B runs the ops while thread A
 //!                                                  is parked inside `Handle::modify` of the shape's reload wrapper (baselines: nobody is)
+//! A static / tree case may carry "install": "from_static" (the stack is leaked and installed with `Dispatch::from_static` instead of `Dispatch::new`).
 //! Any direct-mode case may carry "unwind_from": k — ops k.. then run inside a Drop impl while a panic propagates (caught by the harness).
 //! stdout: {"id":.., "build":[e..], "reg":[e..], "ops":[{"log":[e..],"res":r}..], "panic":null|"msg"}   e = [leaf, method, cs, id, id2]
 //!
@@ -352,6 +353,8 @@ impl Collect for RecCollector {
 thread_local! {
     /// `"unwind_from": k` of the current case: ops k.. are executed inside a Drop impl while a panic propagates (caught at the top).
     static UNWIND_FROM: std::cell::Cell<Option<usize>> = std::cell::Cell::new(None);
+    /// `"install": "from_static"` of the current case: the stack is leaked and installed with `Dispatch::from_static`
+    static FROM_STATIC: std::cell::Cell<bool> = std::cell::Cell::new(false);
     /// how many ops of the current case ran with `std::thread::panicking() == true`
     static UNWOUND: std::cell::Cell<usize> = std::cell::Cell::new(0);
 }
@@ -401,7 +404,12 @@ fn interest_code(i: &Interest) -> u64 {
 /// `Dispatch::new(stack)`, then the ops through the Dispatch's public methods (max_level_hint: on the stack itself).
 fn drive<C: Collect + Send + Sync + 'static>(env: &Env, stack: C, ops: &[Value]) -> Value {
     let build = env.take();
-    let d = Dispatch::new(stack);
+    let d = if FROM_STATIC.with(|c| c.get()) {
+        let leaked: &'static C = Box::leak(Box::new(stack));
+        Dispatch::from_static(leaked)
+    } else {
+        Dispatch::new(stack)
+    };
     // Dispatch::new also rebuilds the (empty) callsite registry's interest, which asks every live dispatcher for its hint:
     // that traffic belongs to the callsite registry (C01/C04), not to this property.
     let reg: Vec<Entry> = env.take().into_iter().filter(|e| e.m != "max_level_hint" && e.m != "register_callsite").collect();
@@ -936,6 +944,7 @@ fn run_line(line: &str) -> Value {
     let behs: Vec<Arc<Beh>> = case["behs"].as_array().unwrap_or(&empty).iter().map(beh_of).collect();
     UNWIND_FROM.with(|c| c.set(case["unwind_from"].as_u64().map(|k| k as usize)));
     UNWOUND.with(|c| c.set(0));
+    FROM_STATIC.with(|c| c.set(case["install"].as_str() == Some("from_static")));
     let r = catch_unwind(AssertUnwindSafe(|| {
         let env = Env::new();
         match case["mode"].as_str().unwrap_or("") {
